@@ -64,3 +64,7 @@ neg "id setter keeps a position's own descriptor"  r15-4-1 's/(case \*gtfsrt\.Ve
 neg "caller of the stale test asks about assigned trips" r15-4-2 's/e\.opts\.FilterStaleUnassignedTrips && !isAssigned && isStaleTrip/e.opts.FilterStaleUnassignedTrips \&\& isAssigned \&\& isStaleTrip/' extensions/nycttrips/nycttrips.go C16
 neg "pairing helper has no room test"              r15-3-4 's/\t\tif i >= len\(updates\) \{\n\t\t\tbreak\n\t\t\}\n//' journal/journal.go C05
 neg "pairing helper pairs copies of the entries"   r15-3-4 's/\t\tstopTime := &stopTimes\[i\]\n/\t\tentry := stopTimes[i]\n\t\tstopTime := \&entry\n/' journal/journal.go C14
+neg "range guard with After the wrong way round" r18-4-2 's/if service\.StartDate\.After\(date\) \{/if date.After(service.StartDate) {/' static.go C11
+neg "window predicate with After the wrong way round" r18-5-1 's/tooLate := trip\.StartTime\.After\(endTime\)/tooLate := endTime.After(trip.StartTime)/' journal/journal.go C14
+neg "named inheritance guard also tests the stop's own type" r18-4-3 's/hasStationParent := stop\.Parent != nil && stop\.Parent\.Type == StopType_Station/hasStationParent := stop.Parent != nil \&\& stop.Parent.Type == StopType_Station \&\& stop.Type == StopType_Platform/' static.go C10
+neg "negated presence marker without the negation" r18-1-2 's/h\.number\(!hasTrip\)\n\tif hasTrip \{/h.number(true)\n\tif hasTrip {/' hash.go C13
